@@ -358,6 +358,13 @@ func (d *drvInst) genuineReplies(s sendRecD, idx int) []reply {
 			reply{"te6_48", te6(r, c.l16(), 3, 0, q48)},
 			reply{"te6_from_target", te6(c.t16(), c.l16(), 3, 0, P)},
 		)
+		// RFC 4884 section 4.4: the first octet of the "unused" word is the length of the padded original datagram in
+		// 64-bit words, and an extension structure (here an MPLS label stack object) follows it
+		{
+			q, _ := rfc4884(P)
+			body := append([]byte{16, 0, 0, 0}, q...)
+			out = append(out, reply{"te6_rfc4884_mpls", buildIP6(ip6Hdr{nh: 58, hlim: 250, src: r, dst: c.l16(), payLen: -1}, buildICMP6(3, 0, body, r, c.l16()))})
+		}
 		// the same time-exceeded behind a hop-by-hop extension header (router alert)
 		{
 			icmpb := buildICMP6(3, 0, append([]byte{0, 0, 0, 0}, P...), r, c.l16())
